@@ -98,6 +98,11 @@ pub enum DStep {
     DropDerived { by_key: bool, heads: bool },
     Reopen { times: u8 },
     Observe,
+    /// C16, last step of a run: remove document `d` while the open transaction looks older than
+    /// the commit delay at its `at`-th internal store access, then the process dies without a
+    /// flush. Whatever the reopened store shows, a document it does not list must have left
+    /// nothing behind.
+    RemoveCrash { d: u8, at: u32, l2: bool },
 }
 
 /// A read-only document with a crafted id next to a real one in byte order (document index
@@ -333,6 +338,9 @@ impl Scenario for Docs {
             steps.push(s);
         }
         steps.push(DStep::Observe);
+        if self.mode == Mode::Remove && backend == Backend::Disk && rng.chance(1, 4) {
+            steps.push(DStep::RemoveCrash { d: pick_doc(rng), at: rng.below(5) as u32, l2: rng.chance(1, 2) });
+        }
         DocsPlan { seed: rng.next_u64(), backend, ghosts, steps }
     }
 
@@ -643,6 +651,32 @@ impl Docs {
                 }
                 DStep::Observe => {
                     self.check_all(plan, sut.store(), &m, si, cx)?;
+                }
+                DStep::RemoveCrash { d, at, l2 } => {
+                    if mode != Mode::Remove || sut.backend != Backend::Disk {
+                        continue;
+                    }
+                    sut.store().close_replica(plan.ns(*d));
+                    let (_calls, fired) = crate::ops::arm_age(*at);
+                    let r = sut.store().remove_replica(&plan.ns(*d));
+                    crate::ops::disarm_age();
+                    if fired.get() {
+                        cx.fault("age_commit_inside_removal");
+                    }
+                    sut.crash(if *l2 { Loss::L2 } else { Loss::L1 })?;
+                    cx.fault(if *l2 { "crash_without_flush_L2" } else { "crash_without_flush_L1" });
+                    cx.ev("remove-crash", format!("d{d} at={at} l2={l2} -> {}", r.is_ok()));
+                    let default_policy = postcard::to_stdvec(&DownloadPolicy::default()).unwrap();
+                    for dd in 0..m.len() as u8 {
+                        let o = observe(sut.store(), plan.ns(dd)).map_err(harness)?;
+                        if o.cap.is_none() {
+                            let residue = if !o.entries.is_empty() || !o.by_key.is_empty() { Some("entries") } else if !o.heads.is_empty() { Some("heads") } else if o.peers.is_some() { Some("peers") } else if o.policy != default_policy { Some("policy") } else { None };
+                            if let Some(what) = residue {
+                                return Err(Violation::new(format!("residue/{what}/after-crash"), format!("step {si}: after a crash that followed the removal of d{d}, the reopened store does not list d{dd} but still shows its {what}: {:?}", (o.entries.len(), o.by_key.len(), short_heads(&o.heads), o.peers.as_ref().map(|p| p.len())))));
+                            }
+                        }
+                    }
+                    return Ok(());
                 }
             }
         }
